@@ -5675,6 +5675,10 @@ class CodegenCtx:
         except UnicodeEncodeError:
             return value.encode('utf-8')
 
+    def _string_constant_length(self, value: Union[bytes, str]):
+        # number of bytes the constant occupies once stored (characters above 0xff take several)
+        return len(self._encode_string(value)) if isinstance(value, str) else len(value)
+
     def _escape_string(self, value: Union[bytes, str]):
         result = ""
         if type(value) is str:
@@ -5734,10 +5738,10 @@ class CodegenCtx:
             if ProgramData.do(ProgramFlag.ALLOCATE_STR_SPACE_DYNAMIC_ON_DEMAND):
                 # (even with a default value or in the start function the buffer may or may not exist: an earlier action can have allocated or freed it)
                 result.add(f"if (!state->c.{action.into_storage.name}) state->c.{action.into_storage.name} = malloc({action.into_storage.str_size});")
-            if len(action.value_expr) > action.into_storage.effective_string_size():
+            if self._string_constant_length(action.value_expr) > action.into_storage.effective_string_size():
                 raise IllegalDFAStateError("Literal is too long for output", action)
             result.add(self._generate_set_string(action.value_expr, action.into_storage))
-            result.add(f"state->{action.into_storage.name}_counter = {len(action.value_expr)};")
+            result.add(f"state->{action.into_storage.name}_counter = {self._string_constant_length(action.value_expr)};")
         elif isinstance(action, DeleteBuf):
             assert action.into_storage.holds_buflike()
 
@@ -5852,7 +5856,9 @@ class CodegenCtx:
                     counter_val = 0
                     if out_expr.default_value is not None:
                         assert out_expr.holds_a(OutputStorageType.STR)
-                        counter_val = len(out_expr.default_value)
+                        counter_val = self._string_constant_length(out_expr.default_value)
+                        if counter_val > out_expr.effective_string_size():
+                            raise IllegalDFAStateError("Default value is too long for output", out_expr)
                     contents.add("// initialize append counter for", out_expr.name)
                     contents.add(f"state->{out_expr.name}_counter = {counter_val};")
                     if out_expr.default_value is None and out_expr.holds_a(OutputStorageType.STR) and out_expr.str_null and not self._is_dynamic(out_expr):
